@@ -49,6 +49,14 @@ CLAIMS = {
             "{1b,1c}, 0 < r,s < n, fields equal the digits) and every other length 0..140 (always Err, never a panic).",
             "That Display emits exactly that text ({:064x} on U256: 64 generic 256-bit divisions) is out of reach; the sign|hash "
             "pipeline is process-level."),
+    "C16": ("Solver-decided for the account selection every command shares (cmd::AccountOptions::private_key): the seed is taken from the given "
+            "mnemonic with the given password (every ASCII password of 0..3 bytes, so leading/trailing white space counts); without --hd-path "
+            "the key is derived along for_index(account_index) for all 2^64 account indices, with --hd-path along the parsed path whatever the account "
+            "index is; a malformed --hd-path (or, without --hd-path, a refused index) is an error and nothing is derived; the derivation's key or error "
+            "is returned unchanged.",
+            "Mnemonic::seed, hdk::Path::for_index and hdk::derive_slice are recorders here (decided / attempted in C02, C14, C03). NOT decided: what "
+            "each command prints (println!, EIP-55, hex), clap's flag/environment parsing and the conflict between the two selectors, and that "
+            "`sign` signs what `hash` prints (cmd::sign::run / cmd::hash::run cannot be compiled by Kani 0.68: ICE on Result<Transaction, _>)."),
     "C17": ("Solver-decided, bounded: absence of panics, arithmetic overflow, out-of-bounds access and unbounded loops (unwinding "
             "assertions on) in every parser/encoder harness of the other properties, attributed to C17.",
             "Whole JSON documents, clap, threads and the vanity search loop are outside. Known finding D7 reported."),
@@ -65,9 +73,6 @@ NOT_APPLICABLE = {
     "C05": "validity/recoverability/low-s/RFC 6979 are properties of HMAC-DRBG, modular inversion and scalar multiplication inside "
            "k256/ecdsa: no bound brings 256x256-bit modular multiplication within reach of bit-blasting, and hdwallet's own part is a "
            "two-line delegation whose only cut point (a generic trait method) Kani 0.68 cannot stub; the accessors are decided in C06/C15",
-    "C16": "the observable is stdout/exit status produced through clap-derive argument and environment parsing; Kani models neither "
-           "argv/env nor process output, and what remains after stubbing seed, derivation and signing is covered by C14/C03; deciding "
-           "which subcommand prints which value needs whole-program runs, which this technique does not do",
 }
 
 
